@@ -51,6 +51,9 @@ LINES = {
     'K10': ('eq', 'n', 'x + y0'),
     'T': ('eq', 't', 'LAG_t + 1.'),
     'LAGT': ('lag', 'LAG_t', 't'),
+    'AGE': ('eq', 'ag', 't-10. + x'),            # arithmetic on the time axis that looks like the tail of a lag spelling
+    'AGK': ('eq', 'ak', '2*k-1 + y'),
+    'TU': ('eq', 't', '1950. + k'),              # user-supplied time axis
     'MT': ('param', 'MaxTime', '2'),
     'ET': ('param', 'Err_Tolerance', '1e-6'),
     'C0': ('pure', PURE_COMMENTS[0], ''),
@@ -274,6 +277,7 @@ def endogenous_sets(tier):
     sets.append(['S1', 'S2', 'BAD2', 'C3', 'C5', 'BLANK'][:n] + ['MT'])
     sets.append(['S1', 'S2', 'BAD3', 'IC', 'ET', 'LAG'][:n])       # no MaxTime line: the horizon stays at its default 0
     sets.append(['S1', 'S2', 'BAD4', 'BAD5', 'BAD6', 'MT'][:n] + (['MT'] if n < 6 else []))
+    sets.append(['S1', 'S2', 'AGE', 'AGK', 'TU', 'LAG'][:n] + ['MT'])
     if n >= 7:
         sets.append(['S1', 'S2', 'LAG', 'USE', 'IC', 'C1', 'MT'])
     return sets
